@@ -14,7 +14,7 @@ class C06(core.Check):
     GEN = ['gen_mbf']
     PROPS = 'props/C06.v'
     MODEL_IMPORTS = ['gen.Gen_mbf', 'model.MBF']
-    QUICK_CASES = 2500
+    QUICK_CASES = 1400
     THOROUGH_CASES = 40000
     TRUSTED = ['idiom layer of translate/targets/gen_mbf.py + lib/MBFPrims.v (value buffers as byte lists; '
                'the for/zip/reversed loop of Float._abs_gt as lex_gt)',
@@ -43,7 +43,8 @@ class C06(core.Check):
                           [8, 0, 0, 0, 0, 0, 0, 0, 129], [8, 0, 0, 0, 0, 0, 0, 128, 129],
                           [8, 1, 0, 0, 0, 0, 0, 0, 129], [8, 0, 0, 0, 1, 0, 0, 0, 129],
                           [8, 255, 255, 255, 255, 255, 255, 127, 255], [8, 255, 255, 255, 255, 255, 255, 255, 255]]
-        c = [{'x': x, 'y': y} for x in vals for y in vals]
+        c = [{'x': x, 'y': y} for i, x in enumerate(vals) for j, y in enumerate(vals)
+             if i < 7 or j < 7 or (i + j) % 3 == 0]
         c += [{'x': [3, 65], 'y': [2, 1, 0]}, {'x': [4, 0, 0, 0, 129], 'y': [3]}, {'x': [8] + [0] * 8, 'y': [3, 1]}]
         return c
 
